@@ -325,7 +325,8 @@ def run_case(case):
 
 def enumerate_cases(tier, seed):
     cases = []
-    cases += s3.bare_cases(["AMBER"], list(s3.OPTION_SETS))
+    cases += s3.bare_cases(["AMBER"], [o for o in s3.OPTION_SETS
+                                       if o not in s3.NEUTRAL_SETS])
     cases += s3.bare_cases([f for f in corpus.FFS if f != "AMBER"],
                            ["default"])
     for d in s3.bare_cases(["PARSE"], ["default", "nodebump_noopt", "noopt"]):
@@ -335,6 +336,7 @@ def enumerate_cases(tier, seed):
     cases += s3.clash_cases("AMBER")
     cases += s3.omit_cases("AMBER")
     cases += s3.water_cases("AMBER", dists=(2.8,))
+    cases += s3.neutral_cases()
     cases += s3.multi_clash_cases("AMBER", all_pairs=(tier != "quick"))
     cases += s3.gap_cases("AMBER", ("default", "noopt"))
     cases += s3.rebuilt_clash_cases("AMBER")
